@@ -25,7 +25,12 @@ for sub in ("harness", "lean/GlotaranModel", "lean/GlotaranProofs", "tools", "co
 # fixes
 if (W / "fixes").is_dir():
     for f in (W / "fixes").iterdir():
-        cp(f, V / "fixes" / P / f.name)
+        if f.is_file():
+            cp(f, V / "fixes" / P / f.name)
+    if (W / "fixes" / P).is_dir():
+        for f in (W / "fixes" / P).iterdir():
+            if f.is_file():
+                cp(f, V / "fixes" / P / f.name)
 # Main.lean dispatch line(s), imports
 def merge_lines(rel, pred):
     src = (W / rel).read_text().splitlines()
